@@ -25,13 +25,14 @@ pub fn parse_query(query: &str) -> Result<Query, QueryError> {
         )));
     }
 
-    let query = match ast.pop().unwrap() {
-        Statement::Query(query) => query,
-        _ => {
+    let query = match ast.pop() {
+        Some(Statement::Query(query)) => query,
+        Some(_) => {
             return Err(QueryError::ParseError(
                 "Only SELECT queries are supported.".to_string(),
             ))
         }
+        None => return Err(QueryError::ParseError("Empty query.".to_string())),
     };
 
     let (projection, relation, selection, order_by, limit, offset) = get_query_components(query)?;
